@@ -122,7 +122,7 @@ def run_shard(desc, tier, res):
         blocks = (ast.stmt, ast.excepthandler, ast.match_case)
         targets = [()] + [p for p, n in O.iter_nodes(tree0) if isinstance(n, blocks) and (
             tier == 'thorough' or any(isinstance(c, blocks) for c in ast.iter_child_nodes(n)))]  # quick: the root and every block
-        ops = list(E.enumerate_ops(src0, nk=1, nks=1, forms=('src',), opts=({},), kinds=('line_comment', 'docstr', 'remove', 'insert'),
+        ops = list(E.enumerate_ops(src0, nk=1, nks=1, forms=('src',), opts=({},), kinds=('line_comment', 'docstr', 'remove', 'insert', 'src_tail'),
                                    lc_texts=('a much longer comment', None)))
         # code whose string values depend on the indentation it is put at (a backslash-continued docstring): put at every statement position
         redent = [op for op in E.enumerate_ops(src0, nk=7, nks=1, forms=('src', 'fst'), opts=({},), kinds=('replace', 'insert'))
